@@ -1137,6 +1137,8 @@ class Interp:
             comb = COMBINATORS.get((trait, name))
         if comb is None and trait:
             comb = ALWAYS_COMB.get((trait, name))   # (`?` on an Option is a plain case split, whatever the features)
+        if comb is None:
+            comb = ALWAYS_COMB.get(key) or ALWAYS_COMB.get(gpath)
         if comb is not None and key not in self.extra_axioms and gpath not in self.extra_axioms and t["target"] is not None and len(self.uid_prefix) < 3:
             outs = comb(self, st, t, bb, fn, args, key, argtys0)
             if outs is not None:
@@ -1735,6 +1737,34 @@ def ax_unwrap(I, st, fn, args, bb):
     return mk_proj(mk_down(a, 1), 0)
 
 
+_TRY_FROM_INT = _re.compile(r"^<(\w+) as (?:std|core)::convert::TryFrom<(\w+)>>::try_from$")
+
+
+def ax_result_unwrap(I, st, fn, args, bb):
+    # `T::try_from(x).unwrap()` / `.expect(..)` between primitive integers: the value of x in the type T (the call panics
+    # where `x as T` would have wrapped; where it returns, it returns the cast)
+    a = args[0]
+    if isinstance(a, tuple) and a and a[0] == "call":
+        m = _TRY_FROM_INT.match(str(a[1]))
+        if m and m.group(1) in INT_TYS and m.group(2) in INT_TYS:
+            inner = [y for y in a[2] if not (isinstance(y, tuple) and y and y[0] == "mem")]
+            if len(inner) == 1:
+                if is_int(inner[0]):
+                    return inner[0]
+                return ("cast", "IntToInt", m.group(1), inner[0], m.group(2))
+    return NotImplemented
+
+
+def ax_from_int(I, st, fn, args, bb):
+    # `i64::from(x)` for a narrower primitive integer: the lossless widening cast
+    tys = [str(x) for x in (fn.get("args") or [])]
+    if len(tys) == 2 and tys[0] in INT_TYS and tys[1] in INT_TYS and len(args) >= 1:
+        if is_int(args[0]):
+            return args[0]
+        return ("cast", "IntToInt", tys[0], args[0], tys[1])
+    return NotImplemented
+
+
 def ax_clone(I, st, fn, args, bb):
     pl = _ref_place(args[0])
     return I.read_pl(st, pl)
@@ -1861,7 +1891,9 @@ def ax_next(I, st, fn, args, bb):
     if a[0] == "ref":
         v = I.read_pl(st, a[1])
         if v[0] == "rangeiter":
-            return ("rnext", ("elem", bb, v[1], v[2]), v[1], v[2], v[3])
+            # (the loop variable is named after the block of THIS instance of the body: two inlined helpers with a loop at the
+            # same block number must not share it - the exit fact of the first would make the second loop look empty)
+            return ("rnext", ("elem", I.uid(bb), v[1], v[2]), v[1], v[2], v[3])
     return NotImplemented
 
 
@@ -2159,7 +2191,44 @@ def comb_slice_get(I, st, t, bb, fn, args, key, argtys):
     return I._finish_comb(t, bb, outs)
 
 
-ALWAYS_COMB = {("std::ops::Try", "branch"): comb_option_try_branch}
+def comb_checked(op):
+    """`a.checked_sub(b)` etc. on primitive integers: Some(a op b) when the operation does not overflow, None when it does"""
+    def f(I, st, t, bb, fn, args, key, argtys):
+        if len(args) < 2:
+            return None
+        m = _re.search(r"<impl (\w+)>::checked_", str(key))
+        ty = m.group(1) if m else None
+        if ty not in INT_TYS:
+            return None
+        a, b = args[0], args[1]
+        if op == "Sub" and ty.startswith("u"):
+            c = mk_bin("Lt", a, b)          # overflow of an unsigned subtraction: a < b
+        else:
+            c = ("ovf", op, a, b, ty)
+        probe = st.fork()
+        _comb_event(I, probe, bb, fn, args, key)
+        outs = []
+        s1 = I._split_on(probe, c, 1)
+        if s1 is not None:
+            outs.append((s1, NONE))
+        s0 = I._split_on(probe, c, 0)
+        if s0 is not None:
+            outs.append((s0, mk_some(mk_bin(op, a, b))))
+        return I._finish_comb(t, bb, outs)
+
+    return f
+
+
+ALWAYS_COMB = {
+    ("std::ops::Try", "branch"): comb_option_try_branch,
+    # `s.get(i)` / `s.get_mut(i)` with a usize index: what `s[i]` does, with the failure as a value
+    "core::slice::<impl [T]>::get": comb_slice_get,
+    "core::slice::<impl [T]>::get_mut": comb_slice_get,
+}
+for _t in sorted(INT_TYS):
+    for _o, _n in (("Sub", "checked_sub"), ("Add", "checked_add"), ("Mul", "checked_mul")):
+        ALWAYS_COMB["core::num::<impl %s>::%s" % (_t, _n)] = comb_checked(_o)
+        ALWAYS_COMB["std::num::<impl %s>::%s" % (_t, _n)] = comb_checked(_o)
 
 COMBINATORS = {
     ("std::ops::Fn", "call"): comb_fn_call,
@@ -2205,6 +2274,10 @@ AXIOMS = {
     "std::option::Option::<T>::as_ref": ax_as_ref,
     "std::option::Option::<T>::as_mut": ax_as_ref,
     "std::option::Option::<T>::unwrap": ax_unwrap,
+    "std::option::Option::<T>::expect": ax_unwrap,
+    "std::result::Result::<T, E>::unwrap": ax_result_unwrap,
+    "std::result::Result::<T, E>::expect": ax_result_unwrap,
+    ("std::convert::From", "from"): ax_from_int,
     ("std::clone::Clone", "clone"): ax_clone,
     ("std::cmp::Ord", "max"): ax_max,
     ("std::cmp::Ord", "min"): ax_min,
